@@ -104,12 +104,40 @@ def one_spec(ctx, name, kw, data, pkinds, tag):
                        dict(estimator=name, preprocessor=pkind, preprocessor_dtype=tag, index_repr=iname, X=X.tolist(),
                             indices=np.asarray(tidx).tolist()),
                        observed=[s.tolist() for s in fitted_state(est, name)], expected=[s.tolist() for s in ref_state])
+    if kind in ('unsup', 'class', 'reg', 'chunks') and pkind in ('ndarray', 'list'):
+      tb = np.sort(rng.integers(0, n, size=n))
+      tb[0], tb[-1] = 0, n - 1
+      extra_b = tuple(np.asarray(a)[tb] for a in args[1:])
+      ctx.count('fit_indices_vs_formed', 1)
+      try:
+        with warnings.catch_warnings():
+          warnings.simplefilter('ignore')
+          ref_b = fitted_state(fits.make_estimator(name, kw).fit(X[tb], *extra_b), name)
+          got_b = fitted_state(fits.make_estimator(name, kwp).fit(tb, *extra_b), name)
+        if not same(got_b, ref_b):
+          ctx.fail_input('fit_indices_vs_formed', 'fit on ascending indicators with repeats (sorted bootstrap sample) gives a different model than fit on formed data',
+                         dict(estimator=name, preprocessor=pkind, preprocessor_dtype=tag, X=X.tolist(), indices=tb.tolist()))
+      except Exception:
+        pass           # (a bootstrap sample may be degenerate for the learner; both sides see the same data)
     # query methods on the estimator fitted with a preprocessor
     with warnings.catch_warnings():
       warnings.simplefilter('ignore')
       est = fits.make_estimator(name, kwp).fit(train_idx, *extra)
     calls = [('transform', pts_idx, X[pts_idx], ()), ('pair_distance', pair_idx, X[pair_idx], ()),
              ('pair_score', pair_idx, X[pair_idx], ())]
+    # ascending indicators with repeats that span a contiguous range (a sorted bootstrap sample: as many entries as the range is
+    # long, both ends present) -- 1-D for points, column by column for tuples
+    def sorted_boot(m):
+      lo = int(rng.integers(0, max(1, n - m)))
+      v = np.sort(rng.integers(0, m, size=m))
+      v[0], v[-1] = 0, m - 1
+      if len(np.unique(v)) == m and m > 2:
+        v[1] = v[0]
+      return lo + np.sort(v)
+    mb = min(7, n)
+    sb_pts = sorted_boot(mb)
+    sb_pairs = np.column_stack([sorted_boot(mb), sorted_boot(mb)])
+    calls += [('transform', sb_pts, X[sb_pts], ()), ('pair_distance', sb_pairs, X[sb_pairs], ())]
     if ts:
       calls += [('predict', tup_idx, X[tup_idx], ()), ('decision_function', tup_idx, X[tup_idx], ())]
       calls += [('score', tup_idx, X[tup_idx], (ypm,) if ts == 2 else ())]
@@ -212,6 +240,9 @@ def run(ctx):
   ctx.trusted = ["text pins tools/translate_pins.py (preprocessing helpers)", "Coq 8.16.1 kernel", "hand-written models Model/Preproc.v, Model/Validate.v tied by this differential and by C06",
                  "translator tools/translate_query.py for the per-method table", "numpy fancy indexing X[idx] (oracle)"]
   ctx.build_property(gen_needed=['Src_query'])
+  # the preprocessor in force is the one given last (set_params between two fits, overlapping views, through pickle): shared with C17
+  from props.c17 import preprocessor_history_lane
+  preprocessor_history_lane(ctx)
   for name, kw, data in fits.zoo_specs(np.random.default_rng(ctx.seed + 23), variants=False):
     one_spec(ctx, name, kw, data, ('ndarray', 'list', 'callable'), 'float64')
     # the preprocessor holds some points under several indicators (repeated rows) and the tuples use either indicator;
